@@ -72,6 +72,26 @@ class Rec(object):
         self.log.append(('stream_failed', s.id, kw.get('REASON'), kw.get('reason')))
 
 
+class HookRec(Rec):
+    """a global listener that reacts to every new circuit / stream by attaching a second listener (`late`) to that very object,
+    from inside the notification"""
+
+    def __init__(self, late):
+        Rec.__init__(self)
+        self.late = late
+        self.hooked = []
+
+    def circuit_new(self, c):
+        Rec.circuit_new(self, c)
+        c.listen(self.late)
+        self.hooked.append(c)
+
+    def stream_new(self, s):
+        Rec.stream_new(self, s)
+        s.listen(self.late)
+        self.hooked.append(s)
+
+
 def _expand(entry):
     """model log entry -> what a listener must record"""
     name = entry[0]
@@ -87,10 +107,11 @@ def _listeners(events, add_at, per_at, un_at, prefix=()):
         for e in prefix:
             kindname, payload = model.apply(e)
             deliver(state, kindname, payload)
-    g1 = Rec()
+    late = Rec()
+    g1 = HookRec(late)
     g2 = Rec()
     per = Rec()
-    want = {'g1': [], 'g2': [], 'per': []}
+    want = {'g1': [], 'g2': [], 'per': [], 'late': []}
     per_objs = None
     try:
         state.add_circuit_listener(g1)
@@ -140,7 +161,16 @@ def _listeners(events, add_at, per_at, un_at, prefix=()):
                 cur = (state.circuits if kind == 'C' else state.streams).get(oid)
                 if cur is not None and any(cur is o for o in objs):
                     want['per'] += exp
+            # `late` is attached by g1 while the object's *_new notification is being delivered: it must hear everything about that
+            # object from then on, the rest of the same event included (whether it also hears that *_new itself is left open)
+            cur1 = (state.circuits if kind == 'C' else state.streams).get(oid)
+            created = any(x[0] in ('circuit_new', 'stream_new') for x in model.log)
+            if created or (cur1 is not None and any(cur1 is o for o in g1.hooked)):
+                want['late'] += [x for x in exp if x[0] not in ('circuit_new', 'stream_new')]
             deliver(state, kindname, payload)
+            if [x for x in late.log if x[0] not in ('circuit_new', 'stream_new')] != want['late']:
+                return R('listener-notifications-differ', 'after event %d (%s %r): a listener attached from inside the *_new notification got %r want %r',
+                         i, kindname, payload, late.log[-4:], want['late'][-4:])
             for nm, rec in (('g1', g1), ('g2', g2), ('per', per)):
                 if rec.log != want[nm]:
                     return R('listener-notifications-differ', 'after event %d (%s %r): listener %s got %r want %r', i, kindname, payload, nm,
@@ -151,7 +181,7 @@ def _listeners(events, add_at, per_at, un_at, prefix=()):
     return ''
 
 
-_E = 32
+_E = 34
 
 
 _P2 = [{'e1': a, 'e2': b} for (a, b) in admissible_prefixes(2)]
